@@ -621,7 +621,10 @@ func RangeOfIdentifier(source logger.Source, loc logger.Loc) logger.Range {
 	i := 0
 	n := len(text)
 
-	for {
+	// Stop at the end of the file: decoding an empty string gives U+FFFD with a
+	// width of 0, which counts as a name character, so this loop would never end
+	// for an identifier that is the last thing in the file
+	for i < n {
 		c, width := utf8.DecodeRuneInString(text[i:])
 		if IsNameContinue(c) {
 			i += width
